@@ -13,8 +13,8 @@
 EXTENDS Naturals, Integers, Sequences, FiniteSets, SequencesExt, TLC, Json, IOUtils, TLCExt
 
 Pairs == JsonDeserialize(IOEnv.TRACE_FILE)
-VARIABLES pid, l, err, done
-vars == <<pid, l, err, done>>
+VARIABLES pid, l, err, done, rk
+vars == <<pid, l, err, done, rk>>
 Pr == Pairs[pid]
 Has0(e) == "final" \in DOMAIN e            \* the closing recommendation is marked final and always compared
 Keep(ev) == IF Pr.dropq = 1 THEN SelectSeq(ev, LAMBDA e : e.k # "glp" \/ Has0(e)) ELSE ev
@@ -31,33 +31,44 @@ CellsEq(x, y, exact) ==
        /\ x[j].id = y[j].id /\ x[j].par = y[j].par /\ x[j].dep = y[j].dep /\ x[j].idx = y[j].idx
        /\ exact => (x[j].box = y[j].box /\ x[j].cpt = y[j].cpt)
 
-Cmp(x, y) ==
+\* Rank codes are computed over all coordinates of a trace, so a divergence late in a run shifts the codes of its
+\* first events too.  To name the place where two runs part, everything that is not rank-coded is compared first
+\* (CmpS, stops the walk); rank-coded fields are compared on the side (CmpR) and decide only if nothing else differs.
+CmpS(x, y) ==
   LET exact == Pr.mode = "exact" IN
   IF x.k # y.k THEN "pair.kind"
   ELSE IF Has(x, "exc") # Has(y, "exc") \/ Has(x, "hang") # Has(y, "hang") THEN "pair.failure-differs"
   ELSE IF Fld(x, "p", 0) # Fld(y, "p", 0) \/ Fld(x, "kc", <<>>) # Fld(y, "kc", <<>>) \/ Fld(x, "lc", <<>>) # Fld(y, "lc", <<>>)
           \/ Fld(x, "pd", 0) # Fld(y, "pd", 0) THEN "pair.structure"
-  ELSE IF ~CellsEq(Fld(x, "new", <<>>), Fld(y, "new", <<>>), exact) THEN "pair.new-cells"
-  ELSE IF x.k = "init" /\ ~(CellsEq(x.cells, y.cells, exact) /\ x.kids = y.kids /\ x.layers = y.layers) THEN "pair.initial-tree"
+  ELSE IF ~CellsEq(Fld(x, "new", <<>>), Fld(y, "new", <<>>), FALSE) THEN "pair.new-cells"
+  ELSE IF x.k = "init" /\ ~(CellsEq(x.cells, y.cells, FALSE) /\ x.kids = y.kids /\ x.layers = y.layers) THEN "pair.initial-tree"
   ELSE IF Fld(x, "ptok", 1) # Fld(y, "ptok", 1) THEN "pair.point"
   \* candidate cells are found by float equality of representatives, which an inexact map need not preserve
   \* (a K-odd parent and its middle child share a centre only up to rounding): compared under exact maps only
   ELSE IF exact /\ Has(x, "cands") /\ x.cands # y.cands THEN "pair.cell"
   ELSE IF Has(x, "sub") /\ x.sub # y.sub THEN "pair.learners"
-  \* rank codes are comparable only when both traces contain the same set of coordinates; a run with extra
-  \* recommendation queries may contain more (wrappers record no tree), so there positions are compared instead
-  ELSE IF Has(x, "pt") /\ exact /\ Pr.dropq = 0 /\ x.pt # y.pt THEN "pair.point"
   ELSE IF Has(x, "rel") /\ ~(\A j \in DOMAIN x.rel : Near(x.rel[j], y.rel[j], IF exact THEN 0 ELSE Pr.tol)) THEN "pair.position"
   ELSE IF Has(x, "r") /\ x.r # y.r THEN "pair.harness-rewards-differ"
   ELSE "ok"
+CmpR(x, y) ==
+  IF Pr.mode # "exact" THEN "ok"
+  ELSE IF ~CellsEq(Fld(x, "new", <<>>), Fld(y, "new", <<>>), TRUE) THEN "pair.new-cells"
+  ELSE IF x.k = "init" /\ ~CellsEq(x.cells, y.cells, TRUE) THEN "pair.initial-tree"
+  \* rank codes are comparable only when both traces contain the same set of coordinates; a run with extra
+  \* recommendation queries may contain more (wrappers record no tree), so there positions are compared instead
+  ELSE IF Has(x, "pt") /\ Pr.dropq = 0 /\ x.pt # y.pt THEN "pair.point"
+  ELSE "ok"
 
-Init == pid \in 1 .. Len(Pairs) /\ l = 1 /\ err = "ok" /\ done = FALSE
+Init == pid \in 1 .. Len(Pairs) /\ l = 1 /\ err = "ok" /\ done = FALSE /\ rk = <<"ok", 0>>
 Step == /\ ~done /\ err = "ok" /\ l <= Len(A)
-        /\ err' = IF l > Len(B) THEN "pair.length" ELSE Cmp(A[l], B[l])
+        /\ err' = IF l > Len(B) THEN "pair.length" ELSE CmpS(A[l], B[l])
+        /\ rk' = IF rk[1] = "ok" /\ l <= Len(B) /\ A[l].k = B[l].k
+                 THEN (LET c == CmpR(A[l], B[l]) IN IF c # "ok" THEN <<c, l>> ELSE rk) ELSE rk
         /\ l' = l + 1 /\ UNCHANGED <<pid, done>>
 Finish == /\ ~done /\ (err # "ok" \/ l > Len(A))
-          /\ PrintT(<<"VERDICT", Pr.id, IF err = "ok" /\ Len(A) # Len(B) THEN "pair.length" ELSE err, l - 1, 0>>)
-          /\ done' = TRUE /\ UNCHANGED <<pid, l, err>>
+          /\ LET v == IF err # "ok" THEN <<err, l - 1>> ELSE IF Len(A) # Len(B) THEN <<"pair.length", l - 1>> ELSE IF rk[1] # "ok" THEN rk ELSE <<"ok", l - 1>>
+             IN PrintT(<<"VERDICT", Pr.id, v[1], v[2], 0>>)
+          /\ done' = TRUE /\ UNCHANGED <<pid, l, err, rk>>
 Next == Step \/ Finish
 Spec == Init /\ [][Next]_vars
 =============================================================================
